@@ -192,7 +192,9 @@ def landing_site(res, upto_events=None):
     """Where the asynchronous SystemExit landed in the abandoned thread, as a class:
     student-code | pedal-setup | pedal-cleanup | pedal-io (input tracker / restricted import, called from
     student code) | not-delivered | n/a"""
-    lands = [x for x in res['sched']['landings'] if x[0] != 0]
+    born = res['sched'].get('thread_born') or {}
+    mine = [int(t) for t, op in born.items() if op == upto_events] if upto_events is not None else None
+    lands = [x for x in res['sched']['landings'] if x[0] != 0 and (mine is None or x[0] in mine)]
     if not lands:
         return 'not-delivered' if res['sched']['async_sent'] else 'n/a'
     x = lands[0]
@@ -207,16 +209,32 @@ def landing_site(res, upto_events=None):
     return 'pedal-other:%s' % x[3]
 
 
-def judge(spec, res):
+def judge(spec, res, k=None):
     vs = []
     meta = spec['meta']
-    k = meta['k']
+    k = meta['k'] if k is None else k
     obs = res['obs']
     if len(obs) <= k:
         return vs
+    # a LATER threaded execution that exceeds the limit itself (starved by the schedule or by an immortal
+    # abandoned thread) is a timed-out execution in its own right: everything from there on is judged with
+    # that execution's own landing site, and this walk stops before it
+    end = len(obs)
+    for j in range(k + 1, len(obs)):
+        if obs[j].get('async_sent', 0) >= 1:
+            end = j
+            break
+    if end < len(obs):
+        head = dict(res)
+        head['obs'] = obs[:end]
+        head['drained'] = None
+        vs = judge(spec, head, k)
+        return vs or judge(spec, res, end)
     ok = obs[k]
-    site = landing_site(res)
-    ctx = '%s/landed=%s' % (ZOMBIE_KIND[meta['cls']], site)
+    site = landing_site(res, k)
+    primary = k == meta['k']
+    kind = ZOMBIE_KIND[meta['cls']] if primary else 'later-execution-starved-by-%s' % ZOMBIE_KIND[meta['cls']]
+    ctx = '%s/landed=%s' % (kind, site)
 
     def viol(inv, detail, extra=''):
         vs.append({'sig': 'C14/%s/%s%s' % (inv, ctx, extra), 'detail': detail})
@@ -276,12 +294,11 @@ def judge(spec, res):
                 break
     if vs:
         return vs
-    # ---- T4b: later executions equal the reference
-    for i in later_exec:
+    # ---- T4b: later executions equal the reference.  (Not after a LATER execution timed out: the reference ran
+    # that execution to completion, the sandbox abandoned it, so their states are no longer comparable.)
+    for i in (later_exec if primary else []):
         o = obs[i]
         op = spec['ops'][i]
-        if o.get('async_sent', 0) >= 1:
-            return vs      # this later execution exceeded the limit itself (starved by the schedule): not a reference case
         if o.get('escaped') is not None:
             e = o['escaped']
             viol('T4-later-execution-raised', 'op %d (%s) raised %s(%s) at %s' % (i, op['op'], e['cls'], e['str'][:60], e['where'][-2:]),
@@ -325,7 +342,9 @@ def judge(spec, res):
         else:
             # the abandoned thread must not have changed what later executions recorded
             last = obs[-1]
-            if later_exec and d['raw_output'] != last['raw_output']:
+            if not primary:
+                pass
+            elif later_exec and d['raw_output'] != last['raw_output']:
                 viol('T4-output-altered-after-the-fact', 'raw_output changed during drain: %r -> %r' % (
                     last['raw_output'][-50:], d['raw_output'][-50:]))
             elif later_exec and d['contexts'][:len(last['contexts'])] != last['contexts'] and \
